@@ -18,10 +18,13 @@ var Values = []string{
 	"", "0", "-1", "1", "10", "007", "+5", "1e3", "3.14", "1.50", "inf", "nan", "-0",
 	"9223372036854775807", "9223372036854775808", "-9223372036854775808", " 5", "abc", "a b", "a\r\nb", "\x00", "a\x00",
 	"\xff\xfe", "$-1", "*2", "héllo", "xyz", "OK", "nil", "<nil>", "[a b]", "true",
+	// values that read like option keywords: a handler (or the log writer) that scans for options by
+	// content instead of by position trips over them
+	"px", "EX", "nx", "GET", "KEEPTTL", "PERSIST", "WITHSCORES", "LIMIT", "COUNT",
 }
 
 // PlainValues contains no numeric-looking strings and no control bytes.
-var PlainValues = []string{"abc", "xyz", "a b", "héllo", "v1", "v2", "hello world", "OK", "Z"}
+var PlainValues = []string{"abc", "xyz", "a b", "héllo", "v1", "v2", "hello world", "OK", "Z", "px", "EX"}
 
 // Value draws a value: mostly from the pool, sometimes random bytes, rarely large.
 func Value(t *rapid.T, label string) string {
